@@ -1116,6 +1116,21 @@ func mutateJSON(r *rng, data []byte) []byte {
 
 // accessCheckWaiting: some live connection has a subscription whose access request has been
 // announced (flagAccessCalled / callbacks registered) but not answered.
+// refetchWaiting: some cached resource is marked as being re-fetched by a system reset.
+func (w *world) refetchWaiting() bool {
+	for _, e := range w.serv.VerifCache().VerifSnapshot() {
+		if e.Base != nil && e.Base.Resetting {
+			return true
+		}
+		for _, q := range e.Queries {
+			if q.Resetting {
+				return true
+			}
+		}
+	}
+	return false
+}
+
 func (w *world) accessCheckWaiting() bool {
 	for _, cs := range w.serv.VerifSnapshot() {
 		for _, s := range cs.Subs {
